@@ -146,6 +146,10 @@ pub struct Local {
     heartbeat: Option<Arc<Heartbeat>>,
     /// number of failed checks recorded by this worker (not capped, unlike `violations`)
     fail_count: u64,
+    /// of those, the ones whose key is not an open known finding
+    unknown_fail_count: u64,
+    /// keys of the open known findings of this property
+    known_keys: Arc<Vec<String>>,
 }
 
 pub struct Heartbeat {
@@ -219,6 +223,8 @@ impl Local {
             machinery_error: None,
             heartbeat: None,
             fail_count: 0,
+            unknown_fail_count: 0,
+            known_keys: Arc::new(Vec::new()),
         }
     }
 
@@ -275,6 +281,9 @@ impl Local {
         }
         *self.stats.counters.entry_ref(&format!("violations:{}", key)) += 1;
         self.fail_count += 1;
+        if !self.known_keys.iter().any(|k| k == key) {
+            self.unknown_fail_count += 1;
+        }
         let per_key = self.violations.iter().filter(|v| v.key == key).count();
         if per_key >= 4 || self.violations.len() >= VIOL_CAP {
             return;
@@ -632,6 +641,12 @@ impl Report {
         let source = Mutex::new((cases, 0u64));
         let merged = Mutex::new((Stats::default(), Vec::<Violation>::new(), Vec::<String>::new(), Vec::<String>::new()));
         let stop = AtomicBool::new(false);
+        // once this many failed checks (known findings excluded) have been recorded the verdict cannot
+        // change any more: the rest of the sub-harness is not explored (reported as a cap in the evidence)
+        const EARLY_STOP: u64 = 2000;
+        let unknown_fails = AtomicU64::new(0);
+        let stopped_early = AtomicBool::new(false);
+        let known_keys: Arc<Vec<String>> = Arc::new(self.known.iter().filter(|k| k.status == "open" && k.property == self.cfg.id).map(|k| k.key.clone()).collect());
         let start = self.start;
         let watchdog = self.watchdog;
         #[allow(non_snake_case)]
@@ -654,12 +669,17 @@ impl Report {
                 let source = &source;
                 let merged = &merged;
                 let stop = &stop;
+                let unknown_fails = &unknown_fails;
+                let stopped_early = &stopped_early;
+                let known_keys = known_keys.clone();
                 let f = &f;
                 let replay = &replay;
                 let hb = beats[t].clone();
                 let name = name.to_string();
                 handles.push(scope.spawn(move || {
                     let mut lx = Local::new(&name);
+                    lx.known_keys = known_keys;
+                    let mut reported_fails = 0u64;
                     lx.heartbeat = Some(hb.clone());
                     let mut samples: Vec<String> = Vec::new();
                     let mut buf: Vec<(u64, C)> = Vec::with_capacity(CHUNK);
@@ -751,6 +771,15 @@ impl Report {
                                 stop.store(true, Ordering::Relaxed);
                                 break;
                             }
+                            if lx.unknown_fail_count > reported_fails {
+                                let total = unknown_fails.fetch_add(lx.unknown_fail_count - reported_fails, Ordering::Relaxed) + (lx.unknown_fail_count - reported_fails);
+                                reported_fails = lx.unknown_fail_count;
+                                if total >= EARLY_STOP && replay.is_none() {
+                                    stopped_early.store(true, Ordering::Relaxed);
+                                    stop.store(true, Ordering::Relaxed);
+                                    break;
+                                }
+                            }
                         }
                     }
                     let mut g = merged.lock().unwrap();
@@ -816,9 +845,12 @@ impl Report {
             stats,
             samples,
             wall_s: t0.elapsed().as_secs_f64(),
-            exhaustive: true,
-            caps: Vec::new(),
+            exhaustive: !stopped_early.load(Ordering::Relaxed),
+            caps: if stopped_early.load(Ordering::Relaxed) { vec![format!("stopped early: {} failed checks recorded, the rest of this sub-harness was not explored", unknown_fails.load(Ordering::Relaxed))] } else { Vec::new() },
         });
+        if stopped_early.load(Ordering::Relaxed) {
+            eprintln!("note: sub-harness {} stopped early after {} failed checks", name, unknown_fails.load(Ordering::Relaxed));
+        }
         if !self.machinery_errors.is_empty() {
             for e in &self.machinery_errors {
                 eprintln!("MACHINERY: {}", e);
